@@ -134,6 +134,88 @@ def body(case):
         note_label('grid-introspection-failed')
 
 
+# ------------------------------------------------------------------ probes placed on the edges of the chunk grid
+@st.composite
+def probe_case(draw):
+    ml = draw(st.sampled_from([1.0, 0.3, 2.0, 5.0, 0.1, 10.0])) * (1 + 0.05 * draw(G.unitf))
+    d0 = draw(st.sampled_from([83.0, 75.0, 60.0, -80.0, 30.0, -65.0, 86.0, 45.0]))
+    return dict(ml=ml, d0=d0, ra0=draw(st.sampled_from([10.0, 200.0, 340.0, 95.0])), csf=draw(st.sampled_from([None, None, 4.0, 6.0])),
+                width=draw(st.sampled_from([6.0, 10.0, 16.0])), fracs=[draw(st.sampled_from([0.9990, 0.9995, 0.9999, 0.998, 0.995, 1.001])) for _ in range(24)],
+                eps=[draw(st.sampled_from([1e-9, 1e-6, 1e-3])) for _ in range(24)], tiny=draw(st.sampled_from([1e-9, 1e-6, 1e-4])))
+
+
+def probe_body(case):
+    """The chunk grid of the package itself is asked where its declination slices and RA chunks end.  First-list points are put just
+    inside a chunk at the most polar declination of its slice, second-list partners at the same declination across the RA edge of
+    the chunk, 0.995 - 1.001 match lengths away: the one place where the RA margin of the chunk assignment has no slack.  The
+    verdict comes from the brute-force separations as everywhere else; the grid only tells where to look."""
+    from pydl.pydlutils.spheregroup import spherematch, chunks
+    ml, d0 = case['ml'], case['d0']
+    cs = None if case['csf'] is None else case['csf'] * ml
+    chunk = max(4.0 * ml, 0.1) if cs is None else cs
+    cosd = math.cos(math.radians(d0))
+    wra = min(case['width'] * chunk / cosd, 300.0)
+    # anchors fix the extent of the grid: the probes lie strictly inside it, so they do not move it
+    anchors = [(G._wrap(case['ra0']), d0 - 2.6 * chunk), (G._wrap(case['ra0'] + wra), d0 + 2.6 * chunk),
+               (G._wrap(case['ra0'] + 0.5 * wra), d0)]
+    anchors = [(r, max(-89.0, min(89.0, d))) for r, d in anchors]
+    a_ra, a_dec = np.array([p[0] for p in anchors]), np.array([p[1] for p in anchors])
+    p1, p2 = [], []
+    try:
+        ch = chunks(a_ra, a_dec, chunk)
+        nd = int(ch.nDec)
+        k = 0
+        for i in range(nd):
+            lo, hi = float(ch.decBounds[i]), float(ch.decBounds[i + 1])
+            if abs(lo) >= 90 or abs(hi) >= 90 or int(ch.nRa[i]) < 3:
+                continue
+            polar = hi if abs(hi) > abs(lo) else lo
+            inward = -1.0 if polar == hi else 1.0
+            dec = polar + inward * case['tiny']
+            if not (a_dec.min() < dec < a_dec.max()):
+                continue
+            for j in range(1, int(ch.nRa[i])):
+                if k >= len(case['fracs']):
+                    break
+                edge = float(ch.raBounds[i][j]) - float(ch.raOffset)
+                side = 1.0 if k % 2 == 0 else -1.0
+                r1 = edge + side * case['eps'][k]
+                f = case['fracs'][k]
+                sh = math.sin(math.radians(f * ml) / 2) / math.cos(math.radians(dec))
+                if sh >= 1:
+                    continue
+                r2 = r1 - side * 2 * math.degrees(math.asin(sh))
+                # keep the probes inside the RA extent of the anchors
+                lo_ra, hi_ra = case['ra0'], case['ra0'] + wra
+                if not (lo_ra < r1 < hi_ra):
+                    continue
+                p1.append((G._wrap(r1), dec))
+                p2.append((G._wrap(r2), dec))
+                k += 1
+    except Exception:
+        note_label('grid-introspection-failed')
+    if not p1:
+        note_label('no-probes')
+        return
+    note_label('probes:%d+' % (len(p1) // 5 * 5))
+    ra1 = np.array([p[0] for p in anchors + p1])
+    dec1 = np.array([p[1] for p in anchors + p1])
+    ra2 = np.array([p[0] for p in p2])
+    dec2 = np.array([p[1] for p in p2])
+    S = G.sepmat(ra1, dec1, ra2, dec2)
+    must = set(zip(*[x.tolist() for x in np.nonzero(G.below(S, ml))]))
+    may = set(zip(*[x.tolist() for x in np.nonzero(~G.above(S, ml))]))
+    m1, m2, d = call(spherematch, ra1, dec1, ra2, dec2, ml, chunksize=cs, maxmatch=0)
+    with judge('probes'):
+        got = set(pairs_of(m1, m2))
+        missing = must - got
+        check(not missing, 'pair-missing', lambda: dict(missing=sorted(missing)[:5], sep=[float(S[p]) for p in sorted(missing)[:5]], L=ml,
+                                                         p1=[(float(ra1[i]), float(dec1[i])) for i, j in sorted(missing)[:3]], p2=[(float(ra2[j]), float(dec2[j])) for i, j in sorted(missing)[:3]]))
+        check(not (got - may), 'pair-too-far', lambda: dict(extra=sorted(got - may)[:5]))
+    if must:
+        note_label('has-pairs')
+
+
 def classify(case):
     return ['family:' + case['family'].replace('+crowded', ''), 'crowded' if 'crowded' in case['family'] else 'sparse', 'chunksize:' + ('default' if case['chunksize'] is None else 'explicit'),
             'maxmatch:%d' % case['maxmatch'], 'ml:1e%d' % math.floor(math.log10(case['ml']))]
@@ -144,6 +226,9 @@ def nontrivial(case, labels):
 
 
 SUBCHECKS = [
+    SubCheck('grid_edge_probes', probe_body, strategy=probe_case, classify=lambda c: ['ml:%g' % round(c['ml']), 'dec:%d' % c['d0']], nontrivial=lambda c, l: 'has-pairs' in l,
+             quick=1200, thorough=40000, shards=(8, 16), floor=0.0,
+             doc='pairs 0.995-1.001 match lengths apart placed across the RA chunk edges at the polar edge of declination slices (grid read from the package)'),
     SubCheck('match_vs_bruteforce', body, strategy=case_strategy, classify=classify, nontrivial=nontrivial,
              quick=8000, thorough=400000, shards=(16, 16),
              doc='unlimited match == brute force pair set (tolerance band), distances, order; maxmatch=k greedy validity'),
